@@ -955,6 +955,10 @@ def check_C10(chk):
             gid = "b%d_%d" % (i, d)
             blocks.append(["# " + gid, "cleartable", "new " + f, "search %d -1 0" % d])
             expect[gid] = ("forced mate in two", f, keep, d)
+        # the table-less mode of C10_mate_in_two_tableless_partial (hook: the table is emptied at every poll), unlimited: must stop by itself
+        gid = "t%d" % i
+        blocks.append(["# " + gid, "cleartable", "new " + f, "search 0 -1 1"])
+        expect[gid] = ("forced mate in two", f, keep, 0)
     for i, f in enumerate(dead):
         gid = "d%d" % i
         blocks.append(["# " + gid, "cleartable", "new " + f, "search 3 -1 0", "search 0 -1 0"])
